@@ -9,6 +9,8 @@ PROP = {'streams': [('c03', 250, 20000)],
          'Entities::from_entities(.., schema): error class, satisfaction vs type False / ImpossiblePolicy, typed AST vs condition, and inhabitation '
          "of every evaluated subexpression's annotated type; non-trivial = distinct (policy, environment, result)",
  'theorems': ['typeOf_sound_partial2',
+              'typeOf_sound_partialM',
+              'accepted_boolean_or_permitted_errorM',
               'typeOf_types_wellformed2',
               'accepted_boolean_or_permitted_error2',
               'typed_false_never_satisfied2',
@@ -25,14 +27,15 @@ PROP = {'streams': [('c03', 250, 20000)],
               'impossible_policy_never_satisfied',
               'ex2_schemaWF',
               'ex2_store'],
- 'assumptions': ['soundness is PROVED for STRICT mode on the fragment `Cedar.C03.InFragment2` named in Thm/C03.lean: every construct the model '
-                 'types except `unknown` (literals, variables, linked slots, && || ! if with arbitrary branches, unary -, + - *, ==, < <= incl. '
-                 'datetime/duration, like, is, has and . on records and entities with capabilities, hasTag/getTag, set and record literals, '
+ 'assumptions': ['soundness is PROVED for STRICT mode on the fragment `Cedar.C03.InFragment2` named in Thm/C03.lean: every construct of the model '
+                 '(literals, variables, linked slots, && || ! if with arbitrary branches, unary -, + - *, ==, < <= incl. datetime/duration, like, '
+                 'is, has and . on records and entities with capabilities, hasTag/getTag, set and record literals, '
                  'contains/containsAll/containsAny/isEmpty, in incl. the descendants-based False and the action-literal special cases, extension '
-                 'calls); for PERMISSIVE mode only on the smaller `Cedar.InFragment` (literals, variables, && || ! if with a flat branch, unary -, '
-                 '+ - *, ==, like, is, has and .); permissive typing of the remaining constructs, slots in environments without a slot type and '
-                 'record literals with duplicate keys (not representable in Rust) are covered by the differential run and the '
-                 'implementation-level soundness search only',
+                 'calls; unknown vacuously); for PERMISSIVE mode on `InFragmentM .permissive`: the same constructs except that an if has a '
+                 'syntactically flat branch and a set literal is non-empty with syntactically flat elements; permissive typing of if / set '
+                 'literals joining record, set or entity types, slots in environments without a slot type (unreachable: link_request_env types '
+                 'every slot of the policy) and record literals with duplicate keys (not representable in Rust) are covered by the differential '
+                 'run and the implementation-level soundness search only',
                  'strict_implies_permissive is proved (same type and capabilities in both modes) only for the expressions whose least upper '
                  'bounds have a flat side (`SIPFragment`: if with a syntactically flat branch, set literals of flat elements); beyond that it is '
                  'checked on the implementation for every generated policy',
@@ -47,19 +50,19 @@ TEXT = ('Lean model `typeOf` mirroring SingleEnvTypechecker::typecheck case by c
  'circuits, has/getAttr/tags, in incl. action hierarchy, is, == with strict restrictions, least upper bounds, literals, extension calls, '
  'per-request-environment driver with template linking and the impossible-policy rule). Soundness (`typeOf_sound`: value inhabits the static type or '
  'the error is entity/overflow/extension; capabilities hold when true, and unconditionally when typed True) is PROVED FOR STRICT MODE ON THE FRAGMENT '
- '`InFragment2` named in Thm/C03.lean (`typeOf_sound_partial2`): every construct the model types except `unknown` — literals, variables, linked '
+ '`InFragment2` named in Thm/C03.lean (`typeOf_sound_partial2`): every construct the model types — literals, variables, linked '
  'template slots, && || ! if (arbitrary branches: instances of either branch inhabit the least upper bound), unary -, + - *, ==, < <= (long, '
  'datetime, duration), like, is, has/. on records and entities with capabilities, hasTag/getTag, set literals, contains/containsAll/containsAny/'
  'isEmpty, record literals (distinct keys), in (general rule with the descendants-based False, action-literal special cases True/False), extension '
  'calls — under schema well-formedness SchemaWF2, conformance of request and store, presence of the action entities, bound slots; and for BOTH modes '
- 'on the smaller `InFragment` (`typeOf_sound_partial`). Corollaries for both fragments: accepted => boolean or permitted error, typed False / '
+ 'on `InFragmentM` (`typeOf_sound_partialM`: in permissive mode an if needs a syntactically flat branch, a set literal flat elements). Corollaries for both fragments: accepted => boolean or permitted error, typed False / '
  'impossible => never satisfied, and the policy-level forms over checkPolicy (the environment of a conformant request is among those '
  'typechecked); strict => permissive with identical type and capabilities for expressions whose lubs have a flat side; a concrete '
  'schema/request/store/policy instantiates every hypothesis (non-vacuity). Permissive typing of the '
- 'constructs outside `InFragment` is covered by the differential run (model vs Typechecker::typecheck_by_request_env per policy, environment and '
+ 'constructs outside `InFragmentM .permissive` is covered by the differential run (model vs Typechecker::typecheck_by_request_env per policy, environment and '
  "mode) and by the implementation-level soundness search: every strict-accepted generated policy is evaluated on conformant requests/stores (Rust's "
  'own schema-based validation) and every evaluated subexpression of the typed AST must inhabit its annotated type; plus non-vacuity (documented '
  'has/hasTag guard idioms accepted) and strict-accepted => permissive-accepted on all generated policies.',
- 'proof over a hand-written model: strict mode for all constructs but `unknown`, permissive mode for a stated smaller fragment only; the model is '
+ 'proof over a hand-written model: strict mode for all constructs, permissive mode for a stated smaller fragment only; the model is '
  "tied to Rust by sampling (generators in harness/src/gen_typed.rs, gen_schema.rs); the resolved schema is serialised from Rust's ValidatorSchema "
  'and its well-formedness (SchemaWF2) is assumed; strict=>permissive is proved for a stated fragment and tested beyond it')
